@@ -168,7 +168,7 @@ Load(k) ==
 (* load a frequency sub-band [l, r) of a file (f_start / f_stop selection): a query; the loaded frame must be a window of
    the saved frame registered at the same sky frequencies (which edge channels the reader includes is its business) *)
 LoadSub(k, l, r) ==
-    /\ All /\ Active /\ k \in 1..Len(files) /\ 0 <= l /\ l + 1 < r /\ r <= files[k].frame.F
+    /\ (All \/ (Focus = "save" /\ l = 1 /\ r = 3)) /\ Active /\ k \in 1..Len(files) /\ 0 <= l /\ l + 1 < r /\ r <= files[k].frame.F
     /\ last' = [st |-> "ok"] /\ UNCHANGED <<objs, files>>
     /\ Log([name |-> "LoadSub", file |-> k, l |-> l, r |-> r], [st |-> "ok", file |-> files[k].frame])
 
